@@ -68,6 +68,42 @@ TypeEntries(items, scope) ==
                      [] OTHER         -> <<>>
        IN here \o TypeEntries(Tail(items), scope)
 
+(***************************************************************************)
+(* Rust types in signatures.  0 = i32 and 1..4 = host types (Val<..>) are  *)
+(* the types a library can register / mention by themselves; 5 = u32,      *)
+(* 6 = bool, 7 = String are further built-in types; compound types are     *)
+(* coded structurally, one or two levels deep:                              *)
+(*   K*100 + x*10 + y           K[x] / K[x, y] with x, y single digits      *)
+(*   K*1000000 + cx*1000 + cy   the same with a compound component          *)
+(*   K: 1 Option, 2 List, 3 Result, 4 Verdict (y / cy = 0 for Option, List) *)
+(* A Rust type denotes the Roto type of the same structure, component      *)
+(* order preserved: Result<T, E> is Result[T, E], Verdict<A, R> is          *)
+(* Verdict[A, R].                                                           *)
+(***************************************************************************)
+TyKind(t) == IF t < 100 THEN 0 ELSE IF t < 1000 THEN t \div 100 ELSE t \div 1000000
+TyArgs(t) == IF t < 100 THEN <<>>
+             ELSE IF t < 1000 THEN (IF TyKind(t) <= 2 THEN <<(t \div 10) % 10>> ELSE <<(t \div 10) % 10, t % 10>>)
+             ELSE IF TyKind(t) <= 2 THEN <<(t \div 1000) % 1000>> ELSE <<(t \div 1000) % 1000, t % 1000>>
+(* the registrable Rust types a type mentions *)
+RECURSIVE Mentions(_)
+Mentions(t) == IF t < 100 THEN (IF t <= 4 THEN {t} ELSE {})
+               ELSE UNION {Mentions(TyArgs(t)[i]) : i \in DOMAIN TyArgs(t)}
+(* Values of the types >= 5 are observed structurally.  The canonical      *)
+(* value number sel of a type: variant sel % 2 (Some | None, [x] | [],     *)
+(* Ok | Err, Accept | Reject) with the canonical value sel \div 2 of the   *)
+(* component as payload; its observation: weight * (variant + 1) + the     *)
+(* observation of the payload, where every built-in leaf has its own code. *)
+LeafCode(b) == CASE b = 5 -> 7 [] b = 6 -> 1 [] b = 7 -> 3 [] b = 1 -> 5 [] OTHER -> 0
+RECURSIVE Obs(_, _)
+Obs(t, sel) ==
+  IF t < 100 THEN LeafCode(t)
+  ELSE LET w == IF t >= 1000000 THEN 100 ELSE 10
+           a == TyArgs(t)
+           v == sel % 2
+       IN IF v = 0 THEN w + Obs(a[1], sel \div 2)
+          ELSE IF Len(a) = 2 THEN 2 * w + Obs(a[2], sel \div 2)
+          ELSE 2 * w
+
 (* declarations of a library: tm maps Rust types to Roto type paths, self  *)
 (* is the Rust type of the enclosing impl block or -1                       *)
 Info(kind, it, self) == [kind |-> kind, tag |-> it.tag, ty |-> it.ty, ps |-> it.ps, r |-> it.r, self |-> self]
@@ -149,8 +185,8 @@ Analyse(rt, lib) ==
       taken   == HasDup(paths) \/ \E i \in DOMAIN paths : Taken(rt, paths[i])
       (* (d) *)
       unreg   == \E it \in Range(flat) :
-                    \/ it.k = "fn" /\ (it.r \notin known \/ \E i \in DOMAIN it.ps : it.ps[i] \notin known)
-                    \/ it.k = "const" /\ it.ty \notin known
+                    \/ it.k = "fn" /\ (~(Mentions(it.r) \subseteq known) \/ \E i \in DOMAIN it.ps : ~(Mentions(it.ps[i]) \subseteq known))
+                    \/ it.k = "const" /\ ~(Mentions(it.ty) \subseteq known)
                     \/ it.k = "impl" /\ it.ty \notin known
       (* uses *)
       Exists(p)   == p # <<>> /\ p \in DOMAIN decl2
@@ -218,15 +254,35 @@ Resolve(rt, p) ==
 Fits(q, d) ==
   CASE q.kind = "fn"     -> d.kind \in {"fn", "method"} /\ d.ps = q.ps /\ d.r = q.r
     [] q.kind = "method" -> d.kind = "method" /\ d.ps = q.ps /\ d.r = q.r /\ Len(d.ps) > 0 /\ d.ps[1] = d.self
+    [] q.kind \in {"match", "cons"} -> d.kind = "fn" /\ d.ps = q.ps /\ d.r = q.r
     [] q.kind = "const"  -> d.kind = "const" /\ d.ty = q.ty
     [] q.kind = "type"   -> d.kind = "type" /\ d.ty = q.ty
     [] OTHER             -> FALSE
 
 (* the tag a probe must observe: >= 0 the tag, -1 not usable, -3 left open *)
+(* What a probe of declaration d observes.  A result of a type < 5 carries *)
+(* the tag of the item.  An item whose signature has a type >= 5 is        *)
+(* observed through the values of that type: a function / constant that    *)
+(* returns it yields the canonical values (tag 0: such a value carries no  *)
+(* tag), a function / method that takes it reports the observation of what *)
+(* it was given (and its tag).                                              *)
+ResultTy(d) == IF d.kind = "const" THEN d.ty ELSE d.r
+ValTy(d) == IF d.kind \in {"mod", "type"} THEN 0
+            ELSE IF ResultTy(d) >= 5 THEN ResultTy(d)
+            ELSE IF \E i \in DOMAIN d.ps : d.ps[i] >= 5 THEN d.ps[CHOOSE i \in DOMAIN d.ps : d.ps[i] >= 5]
+            ELSE 0
+ProbeTag(d) == IF d.kind \notin {"mod", "type"} /\ ResultTy(d) >= 5 THEN 0 ELSE d.tag
+ObsSeq(d) == IF ValTy(d) = 0 THEN <<>>
+             ELSE IF d.kind = "const" THEN <<Obs(d.ty, 0)>>
+             ELSE [s \in 1..4 |-> Obs(ValTy(d), s - 1)]
+
 Expect(rt, q) ==
   LET res == Resolve(rt, q.path) IN
-  IF res[1] THEN (IF Fits(q, rt.decl[res[2]]) THEN rt.decl[res[2]].tag ELSE -1)
+  IF res[1] THEN (IF Fits(q, rt.decl[res[2]]) THEN ProbeTag(rt.decl[res[2]]) ELSE -1)
   ELSE IF res[2] = "open" THEN -3 ELSE -1
+ExpectObs(rt, q) ==
+  LET res == Resolve(rt, q.path) IN
+  IF res[1] /\ Fits(q, rt.decl[res[2]]) THEN ObsSeq(rt.decl[res[2]]) ELSE <<>>
 
 Reach(rt, p) == Resolve(rt, p)[1]
 
@@ -234,8 +290,15 @@ Reach(rt, p) == Resolve(rt, p)[1]
 (* declaration path and through every asserted alias (an alias of a        *)
 (* module or type gives access to its members)                              *)
 ProbeOf(p, d, via) ==
-  LET base == [path |-> p, ps |-> d.ps, r |-> d.r, ty |-> d.ty, tag |-> d.tag, via |-> via, neg |-> FALSE] IN
-  CASE d.kind = "fn"     -> {[kind |-> "fn"] @@ base}
+  LET base == [path |-> p, ps |-> d.ps, r |-> d.r, ty |-> d.ty, tag |-> ProbeTag(d), obs |-> ObsSeq(d),
+               via |-> via, neg |-> FALSE]
+      (* a script that takes the value apart (match) / builds it from its components (constructors) *)
+      apart == IF d.kind = "fn" /\ d.r >= 100 /\ TyKind(d.r) \in {1, 3, 4} /\ d.ps = <<0>>
+               THEN {[kind |-> "match"] @@ base} ELSE {}
+      build == IF d.kind = "fn" /\ d.r = 0 /\ Len(d.ps) = 1 /\ d.ps[1] >= 100 /\ TyKind(d.ps[1]) \in {1, 3, 4}
+               THEN {[kind |-> "cons"] @@ base} ELSE {}
+  IN
+  CASE d.kind = "fn"     -> {[kind |-> "fn"] @@ base} \cup apart \cup build
     [] d.kind = "const"  -> {[kind |-> "const"] @@ base}
     [] d.kind = "type"   -> {[kind |-> "type"] @@ base}
     [] d.kind = "method" -> {[kind |-> "fn"] @@ base} \cup
@@ -266,7 +329,7 @@ SigProbes(rt) ==
   UNION {{[q EXCEPT !.ps = IF Len(q.ps) < 2 THEN Append(q.ps, 0) ELSE Front(q.ps),
                     !.tag = -1, !.via = "sig", !.neg = TRUE]
             : q \in {x \in ProbeOf(p, rt.decl[p], "sig") : x.kind = "fn"}}
-         : p \in {x \in DOMAIN rt.decl : x[1] \notin rt.loose /\ rt.decl[x].kind = "fn"}}
+         : p \in {x \in DOMAIN rt.decl : x[1] \notin rt.loose /\ rt.decl[x].kind = "fn" /\ ValTy(rt.decl[x]) = 0}}
 
 (***************************************************************************)
 (* The state machine: a runtime and a sequence of Add calls.               *)
